@@ -159,7 +159,7 @@ fn entries_for(loc: &str, pat: &Pattern) -> Vec<(String, Val)> {
 }
 
 pub fn run(tier: Tier) -> i32 {
-    let rep = Reporter::new("C07", if cfg!(feature = "suppress") { "L1-suppress" } else { "L1" }, tier);
+    let rep = Reporter::new("C07", &engine_name("L1"), tier);
     let scratch = Scratch::new("c07");
     let keys_total = Mutex::new(0u64);
     let pats = all_patterns(true);
